@@ -1,9 +1,7 @@
 /-
-  C05 (part v) — the vanna DEFECT of the unchanged tree.  The coded `bs_vanna` is NOT ∂(coded delta)/∂σ: it equals
-  −√T × that derivative.  Full statement as a `def … : Prop`, its negation at a concrete witness, and the exact relation
-  between the coded value and the derivative (this relation IS the known-finding classifier
-  `C05/bs-vanna-sign-scale` of the harness).  When fixes/C05-bs-vanna.diff is applied these theorems stop building; the
-  harness then reports the finding as stale (not as a violation) provided the bump oracle confirms vanna = ∂delta/∂σ.
+  C05 (part v) — vanna.  On the unchanged tree `bs_vanna` returned −√T × ∂Δ/∂σ (known finding
+  C05/bs-vanna-sign-scale, repaired by a `fix:` commit in /repo).  On the repaired source the coded vanna
+  IS the derivative of the coded delta with respect to volatility, for every input in the domain.
 -/
 import FinVerif.Props.C05c
 
@@ -15,47 +13,17 @@ open FinVerif FinVerif.Gen FinVerif.C05
 
 variable {Φ φ : ℝ → ℝ} {c : ℝ}
 
+/-- shape of the GENERATED `bs_vanna` (as the source reads now) -/
 theorem bs_vanna_shape (φ : ℝ → ℝ) (s t k r q v : ℝ) (ty : Int) :
-    BSP.bs_vanna φ s t k r q v ty
-      = Real.exp (-q * max t 1e-12) * Real.sqrt (max t 1e-12) * φ (d1Of s t k r q v)
-          * (d2Of s t k r q v / max v 1e-12) := by
-  simp only [BSP.bs_vanna, ssOf, kkOf, wOf, d1Of, d2Of, D1]
+    BSP.bs_vanna φ s t k r q v ty = vannaTrue φ s t k r q v := by
+  simp only [BSP.bs_vanna, vannaTrue, ssOf, kkOf, wOf, d1Of, d2Of, D1]
+  ring
 
-/-- C05: the coded vanna is exactly −√T × the derivative (sign and scale defect). -/
-theorem bs_vanna_coded_eq (φ : ℝ → ℝ) (s t k r q v : ℝ) (ty : Int) :
-    BSP.bs_vanna φ s t k r q v ty = -Real.sqrt (max t 1e-12) * vannaTrue φ s t k r q v := by
-  rw [bs_vanna_shape, vannaTrue]; ring
-
-/-- The full statement "vanna as coded = ∂delta/∂σ" — FALSE on the unchanged tree. -/
-def BsVannaFull : Prop := ∀ (Φ φ : ℝ → ℝ) (c : ℝ), IsGaussPair Φ φ c → ∀ (s t k r q v : ℝ) (ty : Int),
-  0 < s → 1e-12 < v → (ty = 1 ∨ ty = 2) →
-  HasDerivAt (fun x => okVal (BSP.bs_delta Φ s t k r q x ty)) (BSP.bs_vanna φ s t k r q v ty) v
-
-/-- C05 counterexample (S=K=1, r=q=0, T=1, σ=1, call): coded vanna = −φ(½)/2 but ∂delta/∂σ = +φ(½)/2. -/
-theorem bs_vanna_full_false : ¬ BsVannaFull := by
-  intro hfull
-  obtain ⟨Φ, φ, h⟩ := exists_gaussPair 1
-  have h1 := hfull Φ φ 1 h 1 1 1 0 0 1 1 (by norm_num) (by norm_num) (Or.inl rfl)
-  have h2 := bs_vanna_true_is_derivative h (s := 1) (by norm_num) 1 1 0 0 (v := 1) (by norm_num) (ty := 1) (Or.inl rfl)
-  have hu := h1.unique h2
-  rw [bs_vanna_coded_eq] at hu
-  have hd1 : d1Of 1 1 1 0 0 1 = 1 / 2 := by
-    simp only [d1Of, D1, ssOf, kkOf, wOf]; norm_num
-  have hd2 : d2Of 1 1 1 0 0 1 = -(1 / 2) := by
-    rw [d2Of, hd1]; simp only [wOf]; norm_num
-  have hφ : φ (1 / 2) = Real.exp (-(1 / 2 * (1 / 2)) / 2) := by rw [h.pdf]; ring
-  have hpos : 0 < φ (1 / 2) := by rw [hφ]; exact Real.exp_pos _
-  simp only [vannaTrue, hd1, hd2] at hu
-  norm_num at hu
-  linarith
-
-/-- C05: what IS true of the coded vanna (the `_partial` statement): it is the derivative scaled by −√T; in
-particular it coincides with the derivative only where that derivative vanishes (d₂ = 0) or √T = −1 (never). -/
-theorem bs_vanna_partial (h : IsGaussPair Φ φ c) {s : ℝ} (hs : 0 < s) (t k r q : ℝ) {v : ℝ}
+/-- C05: the coded vanna equals ∂(coded delta)/∂σ, calls and puts. -/
+theorem bs_vanna_is_derivative (h : IsGaussPair Φ φ c) {s : ℝ} (hs : 0 < s) (t k r q : ℝ) {v : ℝ}
     (hv : 1e-12 < v) {ty : Int} (hty : ty = 1 ∨ ty = 2) :
-    HasDerivAt (fun x => -Real.sqrt (max t 1e-12) * okVal (BSP.bs_delta Φ s t k r q x ty))
-      (BSP.bs_vanna φ s t k r q v ty) v := by
-  rw [bs_vanna_coded_eq]
-  exact (bs_vanna_true_is_derivative h hs t k r q hv hty).const_mul _
+    HasDerivAt (fun x => okVal (BSP.bs_delta Φ s t k r q x ty)) (BSP.bs_vanna φ s t k r q v ty) v := by
+  rw [bs_vanna_shape]
+  exact bs_vanna_true_is_derivative h hs t k r q hv hty
 
 end FinVerif.Props.C05
